@@ -686,3 +686,61 @@ pub fn run_probes(ad: &Addrs, listeners: &[String], wait: Duration) -> Probes {
     }
     out
 }
+
+// ---- OS-level faults: a foreign process holds a listener address --------------------------------
+
+/// The spec's address letter ("A".."E", `LDef[l].addr`) of listener `l`.
+pub fn addr_letter(l: &str) -> String {
+    let d = LDEF.iter().find(|d| d.0 == l).unwrap_or_else(|| panic!("unknown listener {l}"));
+    ((b'A' + d.2 as u8) as char).to_string()
+}
+
+/// (listener id, protocol, concrete address) of the spec's address letter.
+pub fn addr_of_letter(a: &str, ad: &Addrs) -> (&'static str, &'static str, SocketAddr) {
+    let slot = (a.as_bytes().first().copied().unwrap_or(b'A') - b'A') as u16;
+    let d = LDEF.iter().find(|d| d.2 == slot).unwrap_or_else(|| panic!("unknown address {a}"));
+    (d.0, d.1, ad.slot(d.2))
+}
+
+/// A socket of a FOREIGN process on a listener address: a plain std socket, hence without
+/// SO_REUSEPORT (spec: Env_HoldAddress). While it lives, sozu's server_bind / udp_bind on the
+/// address fail with EADDRINUSE; dropping it is Env_ReleaseAddress.
+pub enum Holder {
+    Tcp(TcpListener),
+    Udp(std::net::UdpSocket),
+}
+
+/// Bind the foreign socket on address letter `a` (TCP listener for http/https/tcp listeners, UDP
+/// socket for udp listeners). Err = the address is in use (a proxy listener is bound to it).
+pub fn hold_address(ad: &Addrs, a: &str) -> Result<Holder, String> {
+    let (_, proto, addr) = addr_of_letter(a, ad);
+    if proto == "udp" {
+        std::net::UdpSocket::bind(addr).map(Holder::Udp).map_err(|e| e.to_string())
+    } else {
+        TcpListener::bind(addr).map(Holder::Tcp).map_err(|e| e.to_string())
+    }
+}
+
+/// Is a UDP socket bound to `addr`? "open" (a plain bind is refused) or "refused" (nothing there).
+pub fn udp_bound_probe(addr: SocketAddr) -> String {
+    match std::net::UdpSocket::bind(addr) {
+        Ok(_) => "refused".to_string(),
+        Err(_) => "open".to_string(),
+    }
+}
+
+/// `run_probes` for the fault legs: udp listeners are probed too (is a socket bound?), listeners
+/// whose address letter is in `held` (the harness itself is bound there) are left out.
+pub fn run_probes_faults(ad: &Addrs, listeners: &[String], wait: Duration, held: &[String]) -> Probes {
+    let probed: Vec<String> = listeners.iter().filter(|l| !held.contains(&addr_letter(l))).cloned().collect();
+    let mut out = run_probes(ad, &probed, wait);
+    for l in &probed {
+        let (proto, addr) = ad.listener(l);
+        if proto == "udp" {
+            let mut m = BTreeMap::new();
+            m.insert("-".to_string(), udp_bound_probe(addr));
+            out.insert(l.clone(), m);
+        }
+    }
+    out
+}
